@@ -146,7 +146,7 @@ int main(int argc, char **argv) {
   std::string t8a, t8b, t8c; int a8 = 0, b8 = 0, c8 = 0; bool asm8 = false;
   try {
     hexasm::Lexer lexer; hexasm::Parser parser(lexer);
-    lexer.loadBuffer("BR start\nDATA 100\nPROC one\nLDAC 1\nOPR BRB\nFUNC two\nLDAC 2\nOPR BRB\nPROC last\nLDAC 3\nstart\nLDBM 1\nLDAC 5\nSTAI 2\nLDAC 0\nOPR SVC\n");
+    lexer.loadBuffer("BR start\nDATA 100\nPROC one\nLDAC 1\nOPR BRB\nFUNC two\nLDAC 2\nOPR BRB\nPROC a_rather_long_procedure_name\nLDAC 3\nstart\nLDBM 1\nLDAC 5\nSTAI 2\nLDAC 0\nOPR SVC\n");
     auto program = parser.parseProgram(); hexasm::CodeGen cg(program); cg.emitBin("p8.bin"); asm8 = true;
   } catch (std::exception &) {}
   if (asm8) {
@@ -160,6 +160,8 @@ int main(int argc, char **argv) {
   std::string why;
   if (a6 != b6 || a6 != c6 || a6 != 'a') why = "a byte read from a stream file (simin1 = 'a') depends on host memory: exit values " + std::to_string(a6) + ", " + std::to_string(b6) + ", " + std::to_string(c6) + " over 0xA5 / 0x00 / 0x01 storage";
   else if (a7 != b7 || a7 != c7 || a7 != 255) why = "a read at the end of a stream file does not deliver 255 or depends on host memory: exit values " + std::to_string(a7) + ", " + std::to_string(b7) + ", " + std::to_string(c7);
+  else if (asm8 && (t8a.find("a_rather_long_procedure_name+1") == std::string::npos || t8b.find("a_rather_long_procedure_name+1") == std::string::npos || t8c.find("a_rather_long_procedure_name+1") == std::string::npos))
+    why = "the -t output of a program with debug symbols does not show the (long) name of the procedure being executed: the symbol column holds something else (heap residue)";
   else if (asm8 && (t8a != t8b || t8a != t8c || a8 != b8 || a8 != c8)) why = "the -t output of a program with debug symbols depends on what the heap held before (pre-fill 0xA5 / 0x00 / 0x5C give different text)";
   else if (lim_off != lim_on) why = "a run cut short by --max-cycles returns a different status with tracing on";
   else if (s5 >= 0) why = "memory word " + std::to_string(s5) + " outside the loaded image is not zero after construction over dirty storage (reads of it depend on host memory)";
